@@ -161,14 +161,28 @@ func watch(prop string, replay any, f func()) {
 	done := make(chan struct{})
 	go func() { defer close(done); f() }()
 	tm := time.NewTimer(60 * time.Second)
-	select {
-	case <-done:
-		tm.Stop()
-	case <-tm.C:
-		p := ev.WriteReplay(prop, replay, "call did not return within 60 s (hang)")
-		fmt.Printf("VERIF-VIOLATION property=%s replay=%s :: call did not return within 60 s (hang)\n", prop, p)
+	defer tm.Stop()
+	tick := time.NewTicker(50 * time.Millisecond)
+	defer tick.Stop()
+	fail := func(msg string) {
+		p := ev.WriteReplay(prop, replay, msg)
+		fmt.Printf("VERIF-VIOLATION property=%s replay=%s :: %s\n", prop, p, msg)
 		ev.FlushAll()
 		os.Exit(1)
+	}
+	for {
+		select {
+		case <-done:
+			return
+		case <-tick.C:
+			var ms runtime.MemStats
+			runtime.ReadMemStats(&ms)
+			if ms.HeapAlloc > 2<<30 {
+				fail(fmt.Sprintf("call still running with %d MiB of heap in use (memory balloon)", ms.HeapAlloc>>20))
+			}
+		case <-tm.C:
+			fail("call did not return within 60 s (hang)")
+		}
 	}
 }
 
